@@ -22,7 +22,8 @@ breaks a proof obligation here (or makes the translator refuse).
   `rows_distinct`, `constructors_known` — bookkeeping: no (endpoint, method, branch) occurs twice; the associated
   functions without `self` (constructors, which cannot reach an existing lock) are the known ones;
 * bridge to the transition system (e):
-  - `caller_program` — proved from the definitions of `Model.Locks` for every configuration, schedule and caller: the
+  - `caller_program` — proved from the definitions of `Model.Locks` for every configuration (of the code's rule
+    `relock = false`, with a peer that does not close the socket; refused replies allowed), schedule and caller: the
     labels of a caller that has finished are exactly `progOf kind ackMode`
     (`acquire · send · recv · release`, without `recv` when the call does not read, without `send` when rejected);
   - `rows_run_model_program` — for every row and both acknowledgement modes, the lock / socket steps of the source
@@ -138,6 +139,7 @@ def restOf (sends reads : Bool) : PC → List Step
   | .sent => if reads then [.recv, .release] else [.release]
   | .locked => if sends then .send :: (if reads then [.recv, .release] else [.release]) else [.release]
   | .idle => .acquire :: (if sends then .send :: (if reads then [.recv, .release] else [.release]) else [.release])
+  | .relock => [.acquire, .release]      -- only under the mutation `Cfg.relock` (Props.C10.relock_on_error_deadlocks)
 
 theorem restOf_idle (c : Cfg) (i : Nat) : restOf (c.sends i) (c.reads i) .idle = progOf (c.kind i) c.ackMode := by
   unfold Cfg.sends Cfg.reads
@@ -147,9 +149,34 @@ private theorem upd_same' {α : Type} (f : Nat → α) (i : Nat) (v : α) : upd 
 private theorem upd_other' {α : Type} (f : Nat → α) {i j : Nat} (v : α) (h : j ≠ i) : upd f i v j = f j := by
   simp [upd, h]
 
+/-- a socket that no configured fault closes stays open -/
+theorem step_closed (c : Cfg) (hno : ∀ k, c.closes k = false) (s s1 : St) (l : Lbl) (h : step c s l = some s1)
+    (hcl : s.closed = false) : s1.closed = false := by
+  cases l with
+  | acquire j =>
+    simp only [step] at h
+    split at h
+    · cases h; exact hcl
+    · split at h
+      · cases h; exact hcl
+      · cases h
+  | send j => simp only [step] at h; split at h <;> cases h; exact hcl
+  | peer =>
+    simp only [step] at h
+    split at h
+    · cases h
+    · cases h; simp [hcl, hno]
+  | recv j =>
+    simp only [step] at h
+    split at h
+    · split at h <;> cases h; exact hcl
+    · cases h
+  | release j => simp only [step] at h; split at h <;> cases h; exact hcl
+
 /-- one step of the transition system consumes exactly the head of what is left of caller `i`'s program if the
-label is one of caller `i`, and leaves it alone otherwise -/
-theorem step_restOf (c : Cfg) (i : Nat) (s s1 : St) (l : Lbl) (h : step c s l = some s1) :
+label is one of caller `i`, and leaves it alone otherwise (the code's rule `relock = false`, socket open) -/
+theorem step_restOf (c : Cfg) (hrl : c.relock = false) (i : Nat) (s s1 : St) (hcl : s.closed = false) (l : Lbl)
+    (h : step c s l = some s1) :
     (proj i l).toList ++ restOf (c.sends i) (c.reads i) (s1.pc i) = restOf (c.sends i) (c.reads i) (s.pc i) := by
   cases l with
   | acquire j =>
@@ -161,14 +188,21 @@ theorem step_restOf (c : Cfg) (i : Nat) (s s1 : St) (l : Lbl) (h : step c s l = 
       · subst e; simp [proj, upd_same', hc.2.1, restOf]
       · have e' : i ≠ j := fun x => e x.symm
         simp [proj, e, upd_other' _ _ e']
-    · cases h
+    · split at h
+      · rename_i _ hc
+        cases h
+        by_cases e : j = i
+        · subst e; simp [proj, upd_same', hc.1, restOf]
+        · have e' : i ≠ j := fun x => e x.symm
+          simp [proj, e, upd_other' _ _ e']
+      · cases h
   | send j =>
     simp only [step] at h
     split at h
     · rename_i hc
       cases h
       by_cases e : j = i
-      · subst e; simp [proj, upd_same', hc.1, hc.2, restOf]
+      · subst e; simp [proj, upd_same', hc.1, hc.2.1, restOf]
       · have e' : i ≠ j := fun x => e x.symm
         simp [proj, e, upd_other' _ _ e']
     · cases h
@@ -185,7 +219,7 @@ theorem step_restOf (c : Cfg) (i : Nat) (s s1 : St) (l : Lbl) (h : step c s l = 
       · cases h
       · cases h
         by_cases e : j = i
-        · subst e; simp [proj, upd_same', hc.1, hc.2, restOf]
+        · subst e; simp [proj, upd_same', hc.1, hc.2, hrl, restOf]
         · have e' : i ≠ j := fun x => e x.symm
           simp [proj, e, upd_other' _ _ e']
     · cases h
@@ -199,36 +233,44 @@ theorem step_restOf (c : Cfg) (i : Nat) (s s1 : St) (l : Lbl) (h : step c s l = 
         rcases hc.2 with hp | ⟨hp, hr⟩ | ⟨hp, hs⟩
         · simp [proj, upd_same', hp, restOf]
         · simp [proj, upd_same', hp, hr, restOf]
-        · simp [proj, upd_same', hp, hs, restOf]
+        · rcases hs with hs | hs
+          · simp [proj, upd_same', hp, hs, restOf]
+          · rw [hcl] at hs; cases hs
       · have e' : i ≠ j := fun x => e x.symm
         simp [proj, e, upd_other' _ _ e']
     · cases h
 
-theorem run_restOf (c : Cfg) (i : Nat) (ls : List Lbl) : ∀ (s s' : St), run c s ls = some s' → s'.pc i = .done →
+theorem run_restOf (c : Cfg) (hrl : c.relock = false) (hno : ∀ k, c.closes k = false) (i : Nat) (ls : List Lbl) :
+    ∀ (s s' : St), s.closed = false → run c s ls = some s' → s'.pc i = .done →
     ls.filterMap (proj i) = restOf (c.sends i) (c.reads i) (s.pc i) := by
   induction ls with
   | nil =>
-    intro s s' hr hd
+    intro s s' _ hr hd
     simp only [run, Option.some.injEq] at hr
     subst hr
     simp [hd, restOf]
   | cons l ls ih =>
-    intro s s' hr hd
+    intro s s' hcl hr hd
     simp only [run] at hr
     split at hr
     · cases hr
     · rename_i s1 hs1
-      have h1 := ih s1 s' hr hd
-      have h2 := step_restOf c i s s1 l hs1
+      have h1 := ih s1 s' (step_closed c hno s s1 l hs1 hcl) hr hd
+      have h2 := step_restOf c hrl i s s1 hcl l hs1
       rw [← h2, ← h1]
       cases hp : proj i l <;> simp [hp]
 
-/-- **The per-call program of the transition system.**  In every configuration and every schedule, the lock / socket
-labels of a caller that has finished are `acquire · [send · [recv]] · release` as given by its kind. -/
-theorem caller_program (c : Cfg) (ls : List Lbl) (s : St) (i : Nat) (hr : run c init ls = some s)
-    (hd : s.pc i = .done) : ls.filterMap (proj i) = progOf (c.kind i) c.ackMode := by
+/-- **The per-call program of the transition system.**  In every configuration of the code's rule whose peer does not
+close the socket (reply faults `bad` allowed: a refused reply is consumed and the guard dropped like a good one) and
+every schedule, the lock / socket labels of a caller that has finished are `acquire · [send · [recv]] · release` as
+given by its kind.  (After a `close` fault a caller that finds the socket dead runs `progOf .rejected` instead —
+`Props.C10.others_unaffected_by_faulty_reply`; the mutated rule `relock` never finishes —
+`Props.C10.relock_on_error_deadlocks`.) -/
+theorem caller_program (c : Cfg) (hrl : c.relock = false) (hno : ∀ k, c.closes k = false) (ls : List Lbl) (s : St)
+    (i : Nat) (hr : run c init ls = some s) (hd : s.pc i = .done) :
+    ls.filterMap (proj i) = progOf (c.kind i) c.ackMode := by
   rw [← restOf_idle]
-  exact run_restOf c i ls init s hr hd
+  exact run_restOf c hrl hno i ls init s rfl hr hd
 
 /-- **Every source method is that program.**  The lock / socket steps of every row — with the conditional read of
 `wait_for_ack` resolved by the acknowledgement mode — are the program of the model for the row's kind. -/
@@ -255,14 +297,15 @@ example : ∃ r ∈ rows, ∃ p ∈ rejectPrefixes [] r.events, rsteps p = [.acq
 
 /-- **Source methods are the callers of the model.**  A finished caller of the transition system whose kind is the
 kind of a source method has performed exactly the lock / socket steps of that method, in that order. -/
-theorem methods_are_model_callers (c : Cfg) (ls : List Lbl) (s : St) (i : Nat) (hr : run c init ls = some s)
+theorem methods_are_model_callers (c : Cfg) (hrl : c.relock = false) (hno : ∀ k, c.closes k = false)
+    (ls : List Lbl) (s : St) (i : Nat) (hr : run c init ls = some s)
     (hd : s.pc i = .done) (r : Row) (hrow : r ∈ rows) (hk : kindOf r.events = c.kind i) :
     ls.filterMap (proj i) = inst c.ackMode (rsteps r.events) := by
-  rw [caller_program c ls s i hr hd, rows_run_model_program c.ackMode r hrow, hk]
+  rw [caller_program c hrl hno ls s i hr hd, rows_run_model_program c.ackMode r hrow, hk]
 
 /-- non-vacuity of `caller_program`: a schedule of three callers (reply, ack with REPLY_ACK on, fire) -/
 example :
-    let c : Cfg := ⟨3, fun i => match i with | 0 => .reply | 1 => .ack | _ => .fire, true⟩
+    let c : Cfg := { n := 3, kind := fun i => match i with | 0 => .reply | 1 => .ack | _ => .fire, ackMode := true }
     let ls : List Lbl := [.acquire 1, .send 1, .peer, .recv 1, .release 1, .acquire 2, .send 2, .release 2,
                           .acquire 0, .send 0, .peer, .peer, .recv 0, .release 0]
     (run c init ls).isSome = true ∧ ls.filterMap (proj 2) = progOf .fire true ∧
